@@ -5,7 +5,7 @@ import ast
 import re
 from typing import List, Optional
 
-from fjsa.flow import FuncFlow, arg_at, call_args, same, txt
+from fjsa.flow import FuncFlow, arg_at, call_args, guards_of, same, txt
 from fjsa.report import Check
 from fjsa.rules import atomic, defassign
 from fjsa.rules.atomic import AtomicAnalysis, split_suffix, same_value
@@ -517,6 +517,19 @@ def _experiment(check: Check):
         finals.append(c)
   check.ob('R-ORDER', fi, 'final evaluation round number', bool(finals),
            'final evaluation functions receive the last round number', nontrivial=False)
+  # every configured final evaluation is run, whatever is already on disk: a re-run after a crash inside this section must rewrite
+  # the files the crash left incomplete, so no evaluation is skipped (continue) or made conditional on a file's existence
+  for c in finals:
+    lps = [l for l in defassign._loops_of(ff, c)]
+    if not lps:
+      continue
+    lp = lps[-1]
+    jumps = [x for x in ast.walk(lp) if isinstance(x, (ast.Continue, ast.Break))]
+    conds = [t for t, _ in guards_of(ff, c, implied=False) if any(t is y for y in ast.walk(lp))]
+    check.ob('R-ORDER.final-every', fi, f'for {txt(lp.target)} in {txt(lp.iter)[:40]}', not jumps and not conds,
+             'every final evaluation runs unconditionally' if not (jumps or conds) else
+             f'a final evaluation can be skipped ({len(jumps)} continue/break, {len(conds)} enclosing condition(s)): an output file left '
+             'incomplete by an interrupted run is kept instead of being rewritten', node=jumps[0] if jumps else c, exact=True)
   # every normal return comes after the final evaluation: a re-run that finds all rounds done must still (re)write its output
   if finals:
     anchors = []
